@@ -121,16 +121,25 @@ def box_spec(draw, n: int, mode: Optional[str] = None, allow_degenerate: bool = 
         c = draw(sgrid(2.0, 40))
         wl = math.exp(draw(grid(wexp_lo, wexp_hi, 35)))
         wu = math.exp(draw(grid(wexp_lo, wexp_hi, 35)))
+        # a bound located exactly at zero (non-negativity, an upper bound of 0, a variable fixed at 0) is the most
+        # common bound there is, and 0.0 / -0.0 are special values for any code that tests a bound for truth
+        zero = draw(st.sampled_from([None, None, None, None, None, "lower", "upper", "neg-zero"]))
         if kind == "free":
             lb.append(None); ub.append(None)
         elif kind == "lower":
-            lb.append(c - wl); ub.append(None)
+            lb.append((-0.0 if zero == "neg-zero" else 0.0) if zero else c - wl); ub.append(None)
         elif kind == "upper":
-            lb.append(None); ub.append(c + wu)
+            lb.append(None); ub.append((-0.0 if zero == "neg-zero" else 0.0) if zero else c + wu)
         elif kind == "both":
-            lb.append(c - wl); ub.append(c + wu)
+            if zero in ("lower", "neg-zero"):
+                lb.append(-0.0 if zero == "neg-zero" else 0.0); ub.append(wu)
+            elif zero == "upper":
+                lb.append(-wl); ub.append(0.0)
+            else:
+                lb.append(c - wl); ub.append(c + wu)
         else:
-            lb.append(c); ub.append(c)
+            v = (-0.0 if zero == "neg-zero" else 0.0) if zero else c
+            lb.append(v); ub.append(v)
         kinds.append(kind)
     return {"lb": lb, "ub": ub, "kinds": kinds}
 
